@@ -236,4 +236,77 @@ theorem resolveU_complete (items : List RItem) (hw : WFItems items)
   simp only [Bool.false_eq_true, if_false]
   rw [hL]
 
+theorem Before_idxOf (L : List Nat) (hnd : L.Nodup) (a b : Nat) (h : Before L a b) : L.idxOf a < L.idxOf b := by
+  obtain ⟨L1, L2, rfl, ha⟩ := h
+  have hb : b ∉ L1 := by
+    intro hb
+    rw [List.nodup_append] at hnd
+    exact hnd.2.2 b hb b List.mem_cons_self rfl
+  rw [List.idxOf_append, if_pos ha, List.idxOf_append, if_neg hb, List.idxOf_cons_self]
+  have := List.idxOf_lt_length_of_mem ha
+  omega
+
+/-- a successful `resolve` certifies that the dependency edges are acyclic (the resolved order of all graph nodes ranks them) -/
+theorem resolveU_acyclic (items : List RItem) (hw : WFItems items) (order : List Nat) (h : resolveU items = .ok order) :
+    Ranked (depEdges items) := by
+  rw [resolveU_eq] at h
+  simp only at h
+  split at h
+  · cases h
+  split at h
+  · cases h
+  rename_i hunsat
+  simp only [Bool.not_eq_true] at hunsat
+  obtain ⟨b1, n1, p1⟩ := loop1 items G.empty built_empty hw.names hw.unique
+    (by simp [G.nodes, G.empty]) (by simp [G.nodes, G.empty])
+    (fun a ha b hb k hk => hw.apart a ha b hb k (List.mem_append_left _ hk))
+  rw [← step1_fst items (G.empty, false)] at b1 n1 p1
+  have hn0 : G.nodes G.empty = [] := by simp [G.nodes, G.empty]
+  rw [hn0, List.nil_append] at n1
+  have hE0 : G.edges G.empty = [] := by simp [G.edges, G.empty]
+  rw [hE0, List.append_nil] at p1
+  generalize hg1 : (items.foldl step1 (G.empty, false)).1 = gA at *
+  obtain ⟨_, fl⟩ := loop2_flag items (gA, false)
+  obtain ⟨_, hreq⟩ := fl hunsat
+  simp only at hreq
+  have hnodesA : ∀ x, x ∈ gA.nodes ↔ (∃ it ∈ items, x = it.name) ∨ ∃ it ∈ items, x ∈ it.provides := by
+    intro x
+    have : gA.nodes = nodesOf items := n1
+    rw [this]; exact mem_nodesOf items x
+  have hfst := step2_fst items (gA, false)
+  simp only at hfst
+  obtain ⟨b2, _, p2⟩ := build_edges (reqEdges items) gA b1 (reqEdges_nodup items hw.names hw.reqNodup) (by
+    intro e he
+    obtain ⟨it, hit, he'⟩ := List.mem_flatMap.1 he
+    obtain ⟨k, hk, rfl⟩ := List.mem_map.1 he'
+    refine ⟨hreq it hit k hk, (hnodesA _).2 (Or.inl ⟨it, hit, rfl⟩), ?_⟩
+    intro hin
+    obtain ⟨it', hit', hin'⟩ := List.mem_flatMap.1 (p1.mem_iff.1 hin)
+    obtain ⟨k', _, hkk⟩ := List.mem_map.1 hin'
+    simp only [Prod.mk.injEq] at hkk
+    exact hw.apart it hit it' hit' k (List.mem_append_right _ hk) hkk.1.symm)
+  rw [← hfst] at b2 p2
+  generalize hg2 : (items.foldl step2 (gA, false)).1 = gB at *
+  obtain ⟨wf, wr⟩ := built_premises gB b2
+  split at h
+  · cases h
+  · rename_i L hL
+    obtain ⟨lnd, _, lbef⟩ := G.toposort_sound gB wf wr L hL
+    refine ⟨fun x => L.idxOf x, fun e he => Before_idxOf L lnd _ _ (lbef e ?_)⟩
+    apply p2.mem_iff.2
+    rcases List.mem_append.1 he with he | he
+    · exact List.mem_append_right _ (p1.mem_iff.2 he)
+    · exact List.mem_append_left _ (List.mem_reverse.2 he)
+  · cases h
+
+/-- **`resolve` succeeds exactly on the satisfiable acyclic sets** (every entity provided at most once) -/
+theorem resolveU_iff (items : List RItem) (hw : WFItems items) :
+    (∃ order, resolveU items = .ok order) ↔
+      ((∀ q ∈ items, ∀ k ∈ q.requires, ∃ p ∈ items, k ∈ p.provides) ∧ Ranked (depEdges items)) := by
+  constructor
+  · rintro ⟨order, h⟩
+    exact ⟨(resolveU_sound items hw order h).2.2.1, resolveU_acyclic items hw order h⟩
+  · rintro ⟨hsat, hacyc⟩
+    exact resolveU_complete items hw hsat hacyc
+
 end Ts
